@@ -80,3 +80,8 @@ def run(ctx):
         vf.selftest_event(ctx, "WireTrace", bad, "the port of the record of an accepted frame changed")
     for e in [x for x in events if x["ev"] == "Frame"][:2]:
         ctx.sample({k: (v if k != "bytes" else v[:60]) for k, v in e.items()})
+    # socket-level tier: on a real socket a frame that is cut after the TCP ports, behind a long reply, yields nothing - in particular not the
+    # rest of the frame before it (the read path of the packet source hands out exactly the bytes of one frame)
+    from checks import wire_tier as wt
+    n3, rej = wt.run_wire(ctx, select=lambda s: s["name"] in ("tcp-fin-truncated-after-long", "tcp-reply-with-options"), label="c06w", focus="reply")
+    wt.report(ctx, "C06", rej)
